@@ -959,7 +959,13 @@ def run_compiled_case(case):
         except Exception as e:
             out.append(core.err_tag(e))
         # the key also carries the generation of the in-stream table entries (constant here: no table-definition message)
-        klists.append([kidx.get((k[0], k[1]), -1) for k in mgr.cache])
+        def _idx(k):
+            # a key of another shape than (descriptor ids, table group key, ...) is a key the model does not have
+            try:
+                return kidx.get((k[0], k[1]), -1)
+            except Exception:  # noqa
+                return -1
+        klists.append([_idx(k) for k in mgr.cache])
     return {'out': out, 'keys': klists, 'bad': bad}
 
 
